@@ -134,6 +134,19 @@ class Rig:
                 _ = fm(self.xs).mean
             if was_training:
                 m.train(); self.lik.train()
+        elif name == "G":
+            # continue the history ON the fantasy model (a model with seeded caches of its own): predict, condition on one
+            # more observation, adopt the result
+            m.eval(); self.lik.eval()
+            self.predict({})
+            self.k += 1
+            yf = S.randn(1)
+            S.sym_tensor(yf, "yg%d" % self.k)
+            with pinverse_by_contract():
+                fm = m.get_fantasy_model(labels(self.n, self.n + 1), yf)
+            self.model, self.lik = fm, fm.likelihood
+            self.table = fm.covar_module.table  # the fantasy model holds its own (deep) copy of the stub kernel's table
+            self.n += 1
         elif name == "R":
             with gpytorch.settings.prior_mode(True):
                 was = m.training
@@ -184,6 +197,27 @@ def history(S, ops):
     S.prove_eq(cov_t, Cref, "covariance after history %s = fresh model" % "-".join(ops))
     S.extra = {"states": 1 + len(ops), "transitions": len(ops) + 1}
     S.term_hashes.add("-".join(ops))
+
+
+def history_fantasy(S, ops, final):
+    """histories that continue on a fantasy model (op G adopts it); the last prediction runs under `final` settings and is
+    compared with a fresh model on all the data under default settings"""
+    with S.mode():
+        rig = Rig(S)
+        for o in ops:
+            rig.op(o)
+        rig.model.eval(); rig.lik.eval()
+        with settings_ctx(final):
+            out = rig.model(rig.xs)
+            mean_t, cov_t = out.mean, out.covariance_matrix
+        fm = rig.fresh()
+        ref = fm(rig.xs)
+        Mref, Cref = as_sym_arr(SH.get(ref.mean)), as_sym_arr(SH.get(ref.covariance_matrix))
+    tag = "%s then predict(%s)" % ("-".join(ops), final)
+    S.prove_eq(mean_t, Mref, "mean after history %s = fresh model" % tag)
+    S.prove_eq(cov_t, Cref, "covariance after history %s = fresh model" % tag)
+    S.extra = {"states": 1 + len(ops), "transitions": len(ops) + 1}
+    S.term_hashes.add(tag)
 
 
 # ------------------------------------------------------------------------------------------------- SGPR / variational rigs
@@ -263,7 +297,7 @@ def history_sgpr(S, ops):
     S.term_hashes.add("sgpr:" + "-".join(ops))
 
 
-VAR_OPS = ["P", "T", "E", "O", "L", "R", "K"]
+VAR_OPS = ["P", "S", "T", "E", "O", "L", "R", "K"]
 
 
 def history_var(S, strat, ops):
@@ -302,6 +336,9 @@ def history_var(S, strat, ops):
             if o == "P":
                 out = model(X)
                 _ = out.mean, out.variance
+            elif o == "S":
+                with gpytorch.settings.skip_posterior_variances(True):
+                    _ = model(X).mean  # mean-only fast path (keeps its own solve cache in evaluation mode)
             elif o == "T":
                 model.train()
             elif o == "E":
@@ -330,6 +367,8 @@ def history_var(S, strat, ops):
         out = model(X)
         mean_t, cov_t = out.mean, out.covariance_matrix
         kl_t = model.variational_strategy.kl_divergence()
+        with gpytorch.settings.skip_posterior_variances(True):
+            mean_skip = model(X).mean
         fresh = VGP(cls, V.CholeskyVariationalDistribution(M), labels(0, M), table, make_mean("constant"))
         with torch.no_grad():
             src = dict(model.named_parameters())
@@ -343,6 +382,7 @@ def history_var(S, strat, ops):
     S.prove_eq(mean_t, Mref, "%s q(f) mean after history %s = fresh model" % (strat, "-".join(ops)))
     S.prove_eq(cov_t, Cref, "%s q(f) covariance after history %s = fresh model" % (strat, "-".join(ops)))
     S.prove_eq(kl_t, Kref, "%s KL after history %s = fresh model" % (strat, "-".join(ops)))
+    S.prove_eq(mean_skip, Mref, "%s q(f) mean under skip_posterior_variances after history %s = fresh model" % (strat, "-".join(ops)))
     S.extra = {"states": 1 + len(ops), "transitions": len(ops) + 1}
     S.term_hashes.add("var:%s:" % strat + "-".join(ops))
 
@@ -390,6 +430,14 @@ def scenarios(tier, seed):
                     continue  # the final prediction would legitimately reuse the (still valid) kernel caches of the last
                     # prediction; the warm-cache route reaches equal terms that are not decided in time (not claimed)
             out.append({"sid": "sgpr:" + "-".join(ops), "fn": "history_sgpr", "params": {"ops": list(ops)}, "timeout_s": 300})
+    fant = [(["G"], {"fpv": True}), (["G", "B"], {"fpv": True}), (["G", "P1", "B"], {"fpv": True}), (["G", "G"], {}), (["G", "G"], {"fpv": True}),
+            (["G", "T", "E"], {"fpv": True}), (["G", "Dy"], {"fpv": True})]
+    if tier != "quick":
+        fant += [(["G", "P2", "B"], {"fpv": True, "detach": False}), (["P1", "G", "B", "G"], {"fpv": True}), (["G", "B", "G", "B"], {"fpv": True}),
+                 (["G", "O"], {"fpv": True}), (["G", "L"], {}), (["O", "G", "B"], {"fpv": True}), (["G", "R", "B"], {"fpv": True})]
+    for ops, final in fant:
+        out.append({"sid": "fantasy_history:%s:%s" % ("-".join(ops), ",".join("%s=%s" % kv for kv in sorted(final.items())) or "default"),
+                    "fn": "history_fantasy", "params": {"ops": ops, "final": final}, "timeout_s": 300})
     for strat in ("variational", "unwhitened"):
         for l in range(0, L + 1):
             for ops in itertools.product(VAR_OPS, repeat=l):
